@@ -95,6 +95,12 @@ func generate(w *mon.W) {
 		for b := 0x80; b < 0x100; b++ {
 			chars = append(chars, string([]byte{byte(b)}))
 		}
+		// multi-byte sequences cut short, over-long and out of range
+		for _, lead := range []byte{0xc0, 0xc2, 0xdf, 0xe0, 0xe2, 0xed, 0xef, 0xf0, 0xf4, 0xf5, 0xf7, 0xf8} {
+			for _, tail := range []string{"\x80", "\x82", "\xa0", "\xbf", "\x82\x82", "\xa0\x85", "\x90\x80", "\x82\x82\x82", "\xbf\xbf\xbf\xbf"} {
+				chars = append(chars, string([]byte{lead})+tail)
+			}
+		}
 		for _, ch := range chars {
 			for _, tmpl := range []string{"T // c%s;d\n; U | count", "T | where s == 'x%s;y'; U", "T | where `c%s;d` == 1; U", "T%s;U%s"} {
 				s := strings.ReplaceAll(tmpl, "%s", ch)
